@@ -178,3 +178,69 @@ pub fn many_scopes(n: usize, frame: usize) -> Prog {
 
 pub const MANY_SCOPES: [usize; 10] = [60, 200, 254, 255, 256, 257, 258, 300, 513, 1000];
 
+/// Long-running / long-coded programs: counts beyond 65535 where the bytecode format or the VM
+/// keeps an address, an index or a counter (code addresses, label targets far into the code,
+/// loop iterations, heap objects, call depth).  They need far more reference fuel than the
+/// default, so callers raise it for these cases only.
+pub fn long_programs() -> Vec<(&'static str, Prog)> {
+    let mut out: Vec<(&'static str, Prog)> = vec![];
+    // 1. a code vector of about 10^5 instructions with control flow at its far end: a
+    //    conditional, a loop, and a function defined and called behind address 65535
+    {
+        let mut p: Prog = vec![let_("acc", E::Int(0))];
+        for i in 0..24_000 {
+            p.push(assign("acc", bin("+", var("acc"), E::Int(i % 50))));
+        }
+        p.push(E::If(bx(bin(">", var("acc"), E::Int(0))), bx(print("far-then ~\\n", vec![var("acc")])), Some(bx(print("far-else\\n", vec![])))));
+        p.push(let_("k", E::Int(0)));
+        p.push(E::While(bx(bin("<", var("k"), E::Int(3))), bx(E::Block(vec![print("far-loop ~\\n", vec![var("k")]), assign("k", bin("+", var("k"), E::Int(1)))]))));
+        p.push(E::Fun("farfn".into(), vec!["q".into()], bx(E::If(bx(bin("==", var("q"), E::Int(0))), bx(E::Int(7)), Some(bx(call("farfn", vec![bin("-", var("q"), E::Int(1))])))))));
+        p.push(print("far-call ~\\n", vec![call("farfn", vec![E::Int(3)])]));
+        out.push(("100k-instructions", p));
+    }
+    // 2. the same amount of code inside one function (one method constant of ~10^5 instructions)
+    {
+        let mut body: Vec<E> = vec![let_("acc", E::Int(0))];
+        for i in 0..24_000 {
+            body.push(assign("acc", bin("+", var("acc"), E::Int(i % 50))));
+        }
+        body.push(E::If(bx(bin(">", var("acc"), E::Int(0))), bx(var("acc")), Some(bx(E::Int(-1)))));
+        out.push(("100k-instruction-function", vec![E::Fun("big".into(), vec![], bx(E::Block(body))), print("big ~\\n", vec![call("big", vec![])])]));
+    }
+    // 3. 70000 loop iterations with arithmetic that passes 2^31
+    {
+        let p: Prog = vec![
+            let_("i", E::Int(0)),
+            let_("s", E::Int(0)),
+            E::While(bx(bin("<", var("i"), E::Int(70_000))), bx(E::Block(vec![assign("s", bin("+", var("s"), bin("*", var("i"), E::Int(7)))), assign("i", bin("+", var("i"), E::Int(1)))]))),
+            print("loop ~ ~\\n", vec![var("i"), var("s")]),
+        ];
+        out.push(("70000-iterations", p));
+    }
+    // 4. 70000 heap objects alive at once, the first and the last still reachable and distinct
+    {
+        let p: Prog = vec![
+            let_("first", E::Object(None, vec![Member::Field("n".into(), E::Int(-1))])),
+            let_("last", var("first")),
+            let_("keep", E::Array(bx(E::Int(70_000)), bx(E::Null))),
+            let_("i", E::Int(0)),
+            E::While(
+                bx(bin("<", var("i"), E::Int(70_000))),
+                bx(E::Block(vec![
+                    assign("last", E::Object(None, vec![Member::Field("n".into(), var("i"))])),
+                    E::IndexSet(bx(var("keep")), bx(var("i")), bx(var("last"))),
+                    assign("i", bin("+", var("i"), E::Int(1))),
+                ])),
+            ),
+            print("heap ~ ~ ~ ~\\n", vec![field(var("first"), "n"), field(var("last"), "n"), field(index(var("keep"), E::Int(65_535)), "n"), field(index(var("keep"), E::Int(65_536)), "n")]),
+        ];
+        out.push(("70000-objects", p));
+    }
+    // 5. recursion 2400 deep (as deep as the reference interpreter goes; C10 has 10^5)
+    {
+        let f = E::Fun("down".into(), vec!["n".into()], bx(E::If(bx(bin("==", var("n"), E::Int(0))), bx(E::Int(0)), Some(bx(bin("+", E::Int(1), call("down", vec![bin("-", var("n"), E::Int(1))])))))));
+        out.push(("2400-deep-recursion", vec![f, print("depth ~\\n", vec![call("down", vec![E::Int(2_400)])])]));
+    }
+    out
+}
+
